@@ -22,7 +22,7 @@ From Coq Require Import List ZArith NArith Bool Arith Lia.
 From BBS Require Import Common.Sx Common.ListX
   Compose.Caching Compose.CachingProofs Compose.MonSilentCaching
   Compose.ExistenceCache Compose.ExistenceCacheProofs Compose.MonSilentEC
-  Compose.Replicators Compose.ReplicatorsProofs
+  Compose.Replicators Compose.ReplicatorsProofs Compose.MonSilentRepl
   Run.MonSilentSx Run.R17Conc Run.R17.
 Import ListNotations.
 Open Scope Z_scope.
@@ -442,4 +442,170 @@ Proof. vm_compute. repeat split; reflexivity. Qed.
 Example ec_size0_example :
   let inp := L [A 1; A 0; A 5; L [L [A 3; A 0]; L [A 0; L [A 0]; A 0; A 0; A 0]]] in
   run17 inp = L [A (-1)] /\ mon17 inp (run17 inp) = [].
+Proof. vm_compute. split; reflexivity. Qed.
+
+(** * Kind 2: replicator decorators (concurrent schedules) *)
+
+(** The monitor, clause group by clause group. *)
+Definition conc_counts (m : mode) (mk ma : nat) : list Z :=
+  match m with
+  | MDedup => if Nat.ltb 1 mk then [21] else []
+  | MLimit k => if Nat.ltb k ma then [22] else []
+  | MQueued _ _ => if Nat.ltb 1 ma then [23] else []
+  end.
+
+Definition mon_conc_counts (inp obs : sx) : list Z :=
+  let '(m, sets, source, sink, evs) := conc_cfg inp in
+  conc_counts m (sx_nat (sx_nth obs 1)) (sx_nat (sx_nth obs 2)).
+
+Definition mon_conc_success (inp obs : sx) : list Z :=
+  let '(m, sets, source, sink, evs) := conc_cfg inp in
+  let lg := sx_list (sx_nth obs 4) in
+  flat_map (fun i =>
+    let ds := nth i sets [] in
+    match index_where (fun e => Z.eqb (lg_kind e) 3 && Nat.eqb (lg_caller e) i && Z.eqb (sx_Z (sx_nth e 2)) 0) lg 0,
+          index_where (fun e => Z.eqb (lg_kind e) 0 && Nat.eqb (lg_caller e) i) lg 0 with
+    | Some _, Some st =>
+        match m with
+        | MQueued _ dur =>
+            let tstart := sx_N (sx_nth (nth st lg (L [])) 2) in
+            if forallb (fun d => copied_within d dur tstart lg) ds then [] else [25]
+        | _ => if forallb (fun d => justified_after d st lg 0) ds then [] else [24]
+        end
+    | _, _ => []
+    end) (seq 0 (length sets)).
+
+Lemma mon_conc_split inp obs :
+  mon_conc inp obs = if sx_eqb obs (L [A (-1)]) then [] else mon_conc_counts inp obs ++ mon_conc_success inp obs.
+Proof.
+  unfold mon_conc, mon_conc_counts, mon_conc_success, conc_counts.
+  destruct (conc_cfg inp) as [[[[m sets] source] sink] evs]. reflexivity.
+Qed.
+
+(** Every state the judge keeps is reachable in the transition system. *)
+Lemma fold_left_inv {S T} (f : S -> T -> S) (I : S -> Prop) l : forall a, I a ->
+  (forall a x, I a -> In x l -> I (f a x)) -> I (fold_left f l a).
+Proof.
+  induction l as [|x l IH]; intros a Ha H; cbn [fold_left]; [exact Ha|].
+  apply IH; [apply H; [exact Ha|left; reflexivity]|]. intros a' y Ha' Hy. apply H; [exact Ha'|right; exact Hy].
+Qed.
+
+Section Reach.
+  Variable m : mode.
+  Variable P : cstate -> Prop.
+  Hypothesis Pstep : forall s e s', P s -> step m s e = Some s' -> P s'.
+
+  Definition allP (l : list (cstate * sx)) : Prop := Forall (fun x => P (fst x)) l.
+
+  Lemma allP_add_new x l : P (fst x) -> allP l -> allP (add_new x l).
+  Proof. intros Hx Hl. unfold add_new. destruct (existsb _ l); [exact Hl|constructor; assumption]. Qed.
+
+  Lemma allP_filter f l : allP l -> allP (filter f l).
+  Proof. unfold allP. rewrite !Forall_forall. intros H x Hx. apply filter_In in Hx. apply H, Hx. Qed.
+
+  Lemma tau_succ_P s : P s -> Forall P (tau_succ m s).
+  Proof.
+    intros Hs. unfold tau_succ. apply Forall_forall. intros s' Hin. apply in_flat_map in Hin.
+    destruct Hin as (i & _ & Hin). apply in_app_or in Hin. destruct Hin as [Hin|Hin].
+    - destruct (step m s (ETau i false)) eqn:E; [|destruct Hin]. destruct Hin as [<-|[]]. eapply Pstep; eassumption.
+    - destruct (step m s (ETau i true)) eqn:E; [|destruct Hin]. destruct Hin as [<-|[]]. eapply Pstep; eassumption.
+  Qed.
+
+  Lemma quiesce_P fuel : forall frontier finals, allP frontier -> allP finals -> allP (quiesce fuel m frontier finals).
+  Proof.
+    induction fuel as [|f IH]; intros frontier finals Hf Hn; cbn [quiesce]; [exact Hn|].
+    destruct frontier as [|x0 fr]; [exact Hn|].
+    match goal with |- context [fold_left ?F ?l ?a] =>
+      assert (FI : allP (fst (fold_left F l a)) /\ allP (snd (fold_left F l a))) end.
+    { apply (fold_left_inv _ (fun acc => allP (fst acc) /\ allP (snd acc))); [split; [constructor|exact Hn]|].
+      intros acc x [A1 A2] Hx.
+      assert (Px : P (fst x)) by (unfold allP in Hf; rewrite Forall_forall in Hf; apply Hf, Hx).
+      pose proof (tau_succ_P (fst x) Px) as T.
+      destruct (tau_succ m (fst x)) as [|s1 succ]; cbn [fst snd].
+      - split; [exact A1|apply allP_add_new; assumption].
+      - split; [|exact A2]. apply (fold_left_inv _ allP); [exact A1|].
+        intros a s' Ha Hs'. apply allP_add_new; [|exact Ha]. cbn [tag fst]. rewrite Forall_forall in T. apply T, Hs'. }
+    destruct (fold_left _ (x0 :: fr) ([], finals)) as [next finals']. cbn [fst snd] in FI.
+    apply IH; apply FI.
+  Qed.
+
+  Lemma round_P e o states : allP states -> allP (round m e o states).
+  Proof.
+    intros H. unfold round. apply allP_filter, quiesce_P; [|constructor].
+    apply (fold_left_inv _ allP); [constructor|]. intros a x Ha Hx. apply allP_add_new; [|exact Ha]. cbn [tag fst].
+    assert (Px : P (fst x)) by (unfold allP in H; rewrite Forall_forall in H; apply H, Hx).
+    unfold apply_ev. destruct (step m (fst x) e) eqn:E; [eapply Pstep; eassumption|exact Px].
+  Qed.
+
+  Lemma rounds_P evs : forall obs states n, allP states -> allP (fst (rounds m evs obs states n)).
+  Proof.
+    induction evs as [|e evs IH]; intros [|o obs] states n H; cbn [rounds fst]; try constructor; [exact H|].
+    pose proof (round_P e o states H) as R. destruct (round m e o states) as [|x l]; [constructor|].
+    apply IH, R.
+  Qed.
+End Reach.
+
+Lemma run_snoc m tr : forall s0 e, run m s0 (tr ++ [e]) = match run m s0 tr with Some s => step m s e | None => None end.
+Proof.
+  induction tr as [|a tr IH]; intros s0 e; cbn [app run].
+  - destruct (step m s0 e); reflexivity.
+  - destruct (step m s0 a); [apply IH|reflexivity].
+Qed.
+
+(** Clauses 21/22/23 are silent on every observation the judge accepts. *)
+Theorem conc_counts_silent_run_conc inp obs : fst (run_conc inp obs) = true -> mon_conc_counts inp obs = [].
+Proof.
+  unfold run_conc, mon_conc_counts. destruct (conc_cfg inp) as [[[[m sets] source] sink] evs].
+  set (P := fun s => exists tr, run m (init_state sets source sink) tr = Some s).
+  assert (Pstep : forall s e s', P s -> step m s e = Some s' -> P s').
+  { intros s e s' [tr Htr] St. exists (tr ++ [e]). rewrite run_snoc, Htr. exact St. }
+  assert (Hinit : allP P [tag (init_state sets source sink)]).
+  { constructor; [|constructor]. exists []. reflexivity. }
+  pose proof (rounds_P m P Pstep evs (sx_list (sx_nth obs 0)) _ 0%nat Hinit) as R.
+  destruct (rounds m evs (sx_list (sx_nth obs 0)) [tag (init_state sets source sink)] 0) as [fin n]. cbn [fst] in R.
+  cbv zeta.
+  destruct (filter _ fin) as [|x l] eqn:F; cbn [fst]; [discriminate|]. intros _.
+  assert (Hx : In x (x :: l)) by (left; reflexivity). rewrite <- F in Hx. apply filter_In in Hx. destruct Hx as [Hin Hc].
+  apply andb_prop in Hc. destruct Hc as [Hc _]. apply andb_prop in Hc. destruct Hc as [Hk Ha].
+  apply Nat.eqb_eq in Hk, Ha. rewrite <- Hk, <- Ha.
+  unfold allP in R. rewrite Forall_forall in R. destruct (R x Hin) as [tr Htr].
+  pose proof (maxima_bounded m sets source sink tr (fst x) Htr) as B.
+  unfold conc_counts. destruct m as [|lim|size dur]; cbn [bound_ok] in B;
+    match goal with |- (if ?c then _ else _) = _ => assert (E : c = false) by (apply Nat.ltb_ge; exact B); rewrite E end; reflexivity.
+Qed.
+
+Theorem conc_counts_silent_on_agreeing inp obs :
+  sx_Z (sx_nth inp 0) = 2 -> agree17 inp obs = true -> mon_conc_counts inp obs = [].
+Proof.
+  intros Hk. unfold agree17, judge17, judge_conc. rewrite Hk.
+  pose proof (conc_counts_silent_run_conc inp obs) as C.
+  destruct (run_conc inp obs) as [agree model]. rewrite agree_verdict. exact C.
+Qed.
+
+(** The judge's agreement test reads obs[0..3] only; the clauses 24/25 read
+    the event log obs[4].  An observation that agrees with the model (no
+    event, one caller that has not started) with a made-up log "caller 0
+    starts; caller 0 returns OK" is accepted by the judge and makes clause 24
+    fire: agreement does not determine the success clauses, so "agree =>
+    silent" cannot be a theorem for them (and is not claimed).  The harness
+    derives the log from the real run, so it never produces this pair. *)
+Example conc_success_clauses_not_determined_by_agreement :
+  let inp := L [A 2; L [A 0]; L [L [A 0]]; L [A 0]; L []; L []] in
+  let obs := L [L []; A 0; A 0; L []; L [L [A 0; A 0; A 0]; L [A 3; A 0; A 0; A 0]]] in
+  agree17 inp obs = true /\ mon17 inp obs = [24] /\ mon_conc_counts inp obs = [].
+Proof. vm_compute. repeat split; reflexivity. Qed.
+
+(** Non-vacuity for kind 2: two callers of the deduplicating replicator for the
+    same object; the second waits while the first copies; the judge accepts
+    the observation (statuses per round, maxima 1 / 1, sink [0]). *)
+Example conc_example :
+  let inp := L [A 2; L [A 0]; L [L [A 0]; L [A 0]]; L [A 0]; L [];
+                L [L [A 0; A 0]; L [A 0; A 1]; L [A 1; A 0; A 0]; L [A 1; A 0; A 0]; L [A 1; A 0; A 0]]] in
+  let obs := L [L [L [L [A 1; A 0; A 2; L [A 0]]; L [A 0]];
+                   L [L [A 1; A 0; A 2; L [A 0]]; L [A 2]];
+                   L [L [A 1; A 1; A 0; L [A 0]]; L [A 2]];
+                   L [L [A 1; A 0; A 1; L [A 0]]; L [A 2]];
+                   L [L [A 3; A 0]; L [A 3; A 0]]];
+                A 1; A 1; L [A 0]; L []] in
+  agree17 inp obs = true /\ mon17 inp obs = [].
 Proof. vm_compute. split; reflexivity. Qed.
